@@ -4,6 +4,7 @@ package main
 
 import (
 	"bytes"
+	"encoding/binary"
 	"errors"
 	"fmt"
 	"io"
@@ -521,7 +522,40 @@ func addPS3Game(r *rng, t *tree, dir string, titleID string) {
 		}
 		b = sfoBytesOrder(ents, phys)
 	}
+	// every third game stores its TITLE_ID in the not-terminated string format (0x0004): the declared
+	// length then IS the length of the value, nothing is cut off its end
+	sfoFmtTurn++
+	if sfoFmtTurn%3 == 0 {
+		b = sfoNotTerminated(b, "TITLE_ID")
+	}
 	t.add(tnode{path: g + "/PARAM.SFO", kind: 'f', size: int64(len(b)), seed: 0, mtime: genMtime(r), overlays: []overlay{{0, b}}})
+}
+
+var sfoFmtTurn int
+
+// sfoNotTerminated rewrites the index entry of `key` to the not-terminated format: format 0x0004,
+// declared length without the NUL (which stays behind as padding of the data table).
+func sfoNotTerminated(b []byte, key string) []byte {
+	if len(b) < 20 {
+		return b
+	}
+	keyStart := int(binary.LittleEndian.Uint32(b[8:]))
+	count := int(binary.LittleEndian.Uint32(b[16:]))
+	for i := 0; i < count; i++ {
+		eo := 20 + 16*i
+		if eo+16 > len(b) {
+			break
+		}
+		ko := keyStart + int(binary.LittleEndian.Uint16(b[eo:]))
+		if ko+len(key)+1 <= len(b) && string(b[ko:ko+len(key)]) == key && b[ko+len(key)] == 0 {
+			dl := binary.LittleEndian.Uint32(b[eo+4:])
+			if dl > 0 {
+				b[eo+2], b[eo+3] = 0x04, 0x00
+				binary.LittleEndian.PutUint32(b[eo+4:], dl-1)
+			}
+		}
+	}
+	return b
 }
 
 // genVisoTree: a directory "/img" (or the root itself) with nested content to turn into an image.
